@@ -159,8 +159,11 @@ class Prover:
             # here: bound by target type only
             pass
         vals = None
-        if t == "elem" and atom[1][0] == "static" and getattr(self, "engine", None) is not None:
-            st = self.engine.F.statics.get(atom[1][1])
+        base = atom[1] if t == "elem" else None
+        while base is not None and base[0] in ("unsize", "ptrcast"):
+            base = base[1]
+        if t == "elem" and base[0] == "static" and getattr(self, "engine", None) is not None:
+            st = self.engine.F.statics.get(base[1])
             if st is not None and "bytes" in st and st["ty"]["t"]["k"] == "array" and \
                     st["ty"]["t"]["of"].get("bits") == 8:
                 vals = set(st["bytes"])
@@ -254,6 +257,13 @@ class Prover:
             return
         if D[0] == "discr":
             out.append(("variant", D[1], v))
+            sg = D[1]
+            if sg[0] == "sliceget":
+                li, ll = self.lin(sg[2]), self.lin(self.an.len_of(sg[1]))
+                if v == 1:      # Some: index < len
+                    out.append(("le", lin_add(lin_add(li, ll, -1), lin_const(1))))
+                elif v == 0:    # None: len <= index
+                    out.append(("le", lin_add(ll, li, -1)))
             return
         out.append(("eqc", D, v))
         l = self.lin(D)
